@@ -503,9 +503,17 @@ func (c *FCtx) callContract(st *State, con *Contract, fi *FuncInfo, fn *types.Fu
 		c.side = append(c.side, Flow{st: ps, kind: fPanic, msg: pc.Msg, pos: pos})
 		st.assume(Not(cond))
 	}
+	// inputs of the call as terms (for `pure` contracts: outputs are uninterpreted functions of exactly these)
+	var pureIn []*Term
+	if con.Pure {
+		pureIn = c.pureInputs(pre, con, pnames, args)
+	}
 	// havoc
 	for i, r := range regs {
 		c.havocRegion(st, r, fmt.Sprintf("%s$%d", fn.Name(), i))
+		if con.Pure {
+			c.assumePureRegion(st, r, fmt.Sprintf("pure$%s$w%d", con.Key, i), pureIn)
+		}
 	}
 	// results
 	rnames := resultNames(fi, con, fn)
@@ -530,7 +538,143 @@ func (c *FCtx) callContract(st *State, con *Contract, fi *FuncInfo, fn *types.Fu
 		}
 		st.assume(post.evalBool(en.E))
 	}
+	if con.Pure {
+		for i, rv := range results {
+			c.assumePureVal(st, rv, fmt.Sprintf("pure$%s$r%d", con.Key, i), pureIn)
+		}
+		c.note("purity (result and final state are a function of the arguments) of " + con.Key + " is discharged by the effects back end")
+	}
 	return results
+}
+
+// pureInputs: the argument list of the uninterpreted functions that describe a `pure` callee: every argument,
+// flattened; an argument with a `reads p[lo:hi]` clause contributes only that window.
+func (c *FCtx) pureInputs(st *State, con *Contract, pnames []string, args []Val) []*Term {
+	var in []*Term
+	for i, a := range args {
+		if rd, ok := con.Reads[pnames[i]]; ok {
+			var arr *Term
+			switch x := a.(type) {
+			case PV:
+				if av, ok := c.project(st.cells[x.Cell], x.Path).(AV); ok {
+					arr = av.T
+				}
+			case AV:
+				arr = x.T
+			case LV:
+				arr = c.memTerm(st, x)
+				in = append(in, subBytesAny(arr, Add(x.Off, Num(rd[0])), Num(rd[1]-rd[0])))
+				continue
+			}
+			if arr == nil {
+				fail("reads clause on %s of %s: not an array-like argument", pnames[i], con.Key)
+			}
+			in = append(in, subBytesAny(arr, Num(rd[0]), Num(rd[1]-rd[0])))
+			continue
+		}
+		in = append(in, c.valTerms(st, a, 0)...)
+	}
+	return in
+}
+
+// valTerms flattens a value (and the memory it refers to, in state st) into SMT terms.
+func (c *FCtx) valTerms(st *State, v Val, depth int) []*Term {
+	if depth > 6 {
+		fail("value too deep for a pure-function argument")
+	}
+	switch x := v.(type) {
+	case SV:
+		return []*Term{x.T}
+	case AV:
+		if x.T.S == SArr(SInt) {
+			return []*Term{subBytes(x.T, Num(0), Num(x.Typ.Underlying().(*types.Array).Len()))}
+		}
+		return []*Term{x.T}
+	case MV:
+		return []*Term{x.T}
+	case CV:
+		return []*Term{subBytesAny(x.Arr, x.Off, x.Len), x.Len}
+	case FXV:
+		return []*Term{subBytesAny(x.V.Arr, x.V.Off, x.V.Len)}
+	case TV:
+		var out []*Term
+		for _, f := range x.Fs {
+			out = append(out, c.valTerms(st, f, depth+1)...)
+		}
+		return out
+	case LV:
+		if x.IsNil.IsTrue() {
+			return []*Term{Num(0)}
+		}
+		return []*Term{subBytesAny(c.memTerm(st, x), x.Off, x.Len), x.Len}
+	case PV:
+		if x.IsNil.IsTrue() {
+			return nil
+		}
+		cv, ok := st.cells[x.Cell]
+		if !ok {
+			return nil
+		}
+		return c.valTerms(st, c.project(cv, x.Path), depth+1)
+	case XV:
+		return []*Term{Num(x.Kind), x.Arr, x.Len, x.RPos}
+	case nilVal:
+		return nil
+	}
+	fail("cannot pass %T to a pure function", v)
+	return nil
+}
+
+// subBytesAny: canonical window of a backing store (only byte/int element stores are canonicalised with sub)
+func subBytesAny(mem, off, n *Term) *Term {
+	if mem.S == SArr(SInt) {
+		return subBytes(mem, off, n)
+	}
+	return mem
+}
+
+func (c *FCtx) assumePureVal(st *State, v Val, name string, in []*Term) {
+	switch x := v.(type) {
+	case SV:
+		st.assume(Eq(x.T, App(name, x.T.S, in...)))
+	case AV:
+		st.assume(Eq(x.T, App(name, x.T.S, in...)))
+	case TV:
+		for i, f := range x.Fs {
+			c.assumePureVal(st, f, fmt.Sprintf("%s.%d", name, i), in)
+		}
+	case LV:
+		st.assume(Eq(x.Len, App(name+"$len", SInt, in...)))
+		st.assume(Eq(x.IsNil, App(name+"$nil", SBool, in...)))
+		m := c.memTerm(st, x)
+		if m.S == SArr(SInt) {
+			q := Sym(c.freshName("q"), SInt)
+			st.assume(Forall([]*Term{q}, Implies(And(Le(Num(0), q), Lt(q, x.Len)), Eq(Select(m, Add(x.Off, q)), Select(App(name, m.S, in...), q)))))
+		}
+	case PV:
+		if cv, ok := st.cells[x.Cell]; ok && len(x.Path) == 0 {
+			c.assumePureVal(st, cv, name+"^", in)
+		}
+	}
+}
+
+func (c *FCtx) assumePureRegion(st *State, r Region, name string, in []*Term) {
+	cur := c.project(st.cells[r.Cell], r.Path)
+	if !r.Ranged {
+		c.assumePureVal(st, cur, name, in)
+		return
+	}
+	var m *Term
+	switch x := cur.(type) {
+	case MV:
+		m = x.T
+	case AV:
+		m = x.T
+	default:
+		return
+	}
+	q := Sym(c.freshName("q"), SInt)
+	st.assume(Forall([]*Term{q}, Implies(And(Le(r.Lo, q), Lt(q, r.Hi)), Eq(Select(m, q), Select(App(name, m.S, in...), Sub(q, r.Lo))))))
 }
 
 // mergeFlows joins several flows that forked from base (all share base's pc as a prefix).
